@@ -155,25 +155,26 @@ inductive AddTarget where
   | self | copy
   deriving Repr, DecidableEq, Inhabited
 
-/-- `a + b` for a block `a` and a root/iterable `b` (the children of `b` are iterated — as a snapshot,
-see the notes: the implementation iterates the live list). Returns the new store and the result. -/
-def kvAdd (tgt : AddTarget) (tr : Nat → Nat → Treat) (n vf : Nat) (h : Store) (a b : Loc) :
+/-- `a + b` for a block `a`; `bl` is the list object whose elements are iterated (the children list of a
+root/block `b`, or a plain list) — as a snapshot, see the notes: the implementation iterates the live
+list. Returns the new store and the result. -/
+def kvAdd (tgt : AddTarget) (tr : Nat → Nat → Treat) (n vf : Nat) (h : Store) (a bl : Loc) :
     Option (Store × Loc) :=
   match copyWith tr n h a with
   | none => none
   | some (h1, c) =>
-    match kidsLoc vf h1 b, kidsLoc vf h1 (match tgt with | .self => a | .copy => c) with
-    | some bl, some t =>
+    match kidsLoc vf h1 (match tgt with | .self => a | .copy => c) with
+    | some t =>
       match appendCopies tr n true h1 t (listElems h1 bl) with
       | none => none
       | some h2 => some (h2, c)
-    | _, _ => none
+    | none => none
 
-/-- `a += b` / `a.extend(b)`: children of `b` are copied (when `cp`) and appended to `a`. -/
-def kvIAdd (cp : Bool) (tr : Nat → Nat → Treat) (n vf : Nat) (h : Store) (a b : Loc) : Option Store :=
-  match kidsLoc vf h b, kidsLoc vf h a with
-  | some bl, some t => appendCopies tr n cp h t (listElems h bl)
-  | _, _ => none
+/-- `a += b` / `a.extend(b)`: the elements of `bl` are copied (when `cp`) and appended to `a`. -/
+def kvIAdd (cp : Bool) (tr : Nat → Nat → Treat) (n vf : Nat) (h : Store) (a bl : Loc) : Option Store :=
+  match kidsLoc vf h a with
+  | some t => appendCopies tr n cp h t (listElems h bl)
+  | none => none
 
 /-- Abstract children of block `a`. -/
 def kidsAbs (m vf : Nat) (h : Store) (a : Loc) : List Tree :=
